@@ -149,6 +149,18 @@ fn spec<B: Fld, H: ElementHasher<BaseField = B>>(inst: &Instance, proof: &Proof)
         s.push(Step::Reseed("fri-layer-root", froots[k].as_bytes()));
         s.push(Step::Draws("fri-alpha", 1));
     }
+    // the last FRI commitment must be the commitment to the remainder that the proof carries (hash of its
+    // elements): otherwise the remainder is a message the challenges after it do not depend on
+    {
+        let ds = wfv::seeds::digest_size(inst.hs);
+        let map = wfv::mutate::map_proof(&proof.to_bytes(), ds).ok_or("proof layout")?;
+        let pb = proof.to_bytes();
+        let rem = &pb[map.fri_remainder.0..map.fri_remainder.1];
+        match stark::remainder_commitment(inst.fd, inst.hs, proof.options().field_extension(), rem) {
+            Some(h) if h == winter_utils::Serializable::to_bytes(&froots[layers]) => {},
+            _ => return Err("the absorbed remainder commitment is not the hash of the remainder carried in the proof".into()),
+        }
+    }
     s.push(Step::Reseed("fri-remainder-commitment", froots[layers].as_bytes()));
     s.push(Step::Clz);
     s.push(Step::Ints);
